@@ -1,7 +1,7 @@
 (* C03 property theorems. Statements closed by `exact lemma`, followed by Print Assumptions; Examples show that the
    hypotheses are satisfiable. *)
 From Coq Require Import NArith ZArith List Bool Lia.
-From OG Require Import C03.Model C03.Proofs C03.ColModel C03.ColProofs C03.ColLimModel C03.ColLimProofs C03.FaultModel C03.FaultProofs.
+From OG Require Import C03.Model C03.Proofs C03.ColModel C03.ColProofs C03.ColLimModel C03.ColLimProofs C03.FaultModel C03.FaultProofs C03.MergeModel C03.MergeProofs.
 Import ListNotations.
 
 (* Main theorem, for the whole family of protocols "log first, log removal last, any interleaving of renaming the
@@ -238,6 +238,37 @@ Print Assumptions split_resume_all_chunks_refuted.
 Example split_example :
   compact_col_lim None 2 2 [mksrc [2; 2; 1] (Some [[Some 1%Z; Some 2%Z]; [Some 3%Z; Some 4%Z]; [Some 5%Z]]); mksrc [2] None]
   = [[[Some 1%Z; Some 2%Z]; [Some 3%Z; Some 4%Z]]; [[Some 5%Z; None]; [None]]].
+Proof. vm_compute. reflexivity. Qed.
+
+(* ---------- out-of-order merge, column by column (MergeModel: the two-cursor merge of lib/record/meger.go, the files of the
+   out-of-order side merged oldest first, a column absent from a chunk = nil in its rows) ----------
+   For all strictly ascending inputs (the ordered chunks of the series laid end to end, every out-of-order chunk): the merged
+   column is strictly ascending, and what a query sees at any time t is the last-write-wins overlay of the inputs in file
+   order - the value of the newest out-of-order file that has a non-nil cell at t, else the next older one, ..., else the
+   ordered value (a nil of a newer file never hides an older value). This is Model.read / Model.over for one (series, field). *)
+Theorem C03_merge_column_lww : forall (os us : list tcol) (lo : Z),
+  asc_from lo (concat os) -> Forall (asc_from lo) us ->
+  asc_from lo (merge_series os us) /\
+  forall t, val t (merge_series os us) = fold_left (newer_wins t) us (val t (concat os)).
+Proof. exact merge_series_lww. Qed.
+Print Assumptions C03_merge_column_lww.
+
+(* rows: a time is in the merged column iff it is in some input (no row lost, none invented) *)
+Theorem C03_merge_column_rows : forall (os us : list tcol) (lo t : Z),
+  asc_from lo (concat os) -> Forall (asc_from lo) us ->
+  (assoc t (merge_series os us) = None <-> assoc t (concat os) = None /\ Forall (fun u => assoc t u = None) us).
+Proof. exact merge_series_rows. Qed.
+Print Assumptions C03_merge_column_rows.
+
+Theorem merge_old_wins_refuted :
+  exists o u t, asc_from 0 o /\ asc_from 0 u /\
+    val t (merge_col_old_wins o u) <> match val t u with Some v => Some v | None => val t o end.
+Proof. exact old_wins_refuted. Qed.
+Print Assumptions merge_old_wins_refuted.
+
+Example merge_example :
+  merge_series [[(1, Some 10); (3, None)]; [(5, Some 50)]]%Z [[(3, Some 31); (4, None)]; [(3, None); (5, Some 51); (9, Some 90)]]%Z
+  = [(1, Some 10); (3, Some 31); (4, None); (5, Some 51); (9, Some 90)]%Z.
 Proof. vm_compute. reflexivity. Qed.
 
 (* ---------- reorganisations that FAIL (I/O errors instead of process kills; FaultModel.replace_exec / merge_exec) ----------
